@@ -280,7 +280,7 @@ class Lane:
             frame_id=self.frame,
             result_root_directory=os.path.join(ctx.root, "result_%s" % self.name),
             evaluation_config_dict=config_dict(cfg),
-            load_raw_data=False,
+            load_raw_data=bool(ctx.plan["storage"].get("raw")),
         )
         try:
             self.manager = R["PerceptionEvaluationManager"](evaluation_config=self.config)
